@@ -70,6 +70,12 @@ type Exploration struct {
 	shadow  map[uintptr]*shadow
 	shared  []addrRange
 	allShared bool
+	// rescan recomputes the shared address ranges (objects published into shared structures while the threads
+	// run become shared, too); dirty: a store into shared memory happened since the last rescan
+	rescan  func() [][2]uintptr
+	dirty   bool
+	Rescans int
+	maxRescans int
 	mutexVC map[*Mutex][]int
 	mutexID map[*Mutex]int
 	atomicVC map[uintptr][]int
@@ -212,6 +218,7 @@ func W[T any](p *T, site string) {
 	a := uintptr(unsafe.Pointer(p))
 	if e.isShared(a) {
 		e.point(t, "store", site)
+		e.dirty = true
 	}
 	e.record(t, a, true, site)
 }
@@ -276,6 +283,7 @@ func AtomicP[T any](p *T, site string) *T {
 	a := uintptr(unsafe.Pointer(p))
 	if a != 0 && e.isShared(a) {
 		e.point(t, "atomic", site)
+		e.dirty = true
 	}
 	if vc, ok := e.atomicVC[a]; ok {
 		joinVC(t.vc, vc)
@@ -308,6 +316,7 @@ func WM[M any](m M, site string) {
 	a := mapID(unsafe.Pointer(&m))
 	if e.isShared(a) {
 		e.point(t, "map-store", site)
+		e.dirty = true
 	}
 	e.record(t, a, true, site)
 }
@@ -333,6 +342,14 @@ func joinVC(dst, src []int) {
 			dst[i] = src[i]
 		}
 	}
+}
+
+func (e *Exploration) setShared(rs [][2]uintptr) {
+	e.shared = e.shared[:0]
+	for _, r := range rs {
+		e.shared = append(e.shared, addrRange{r[0], r[1]})
+	}
+	sort.Slice(e.shared, func(i, j int) bool { return e.shared[i].lo < e.shared[j].lo })
 }
 
 func (e *Exploration) isShared(a uintptr) bool {
@@ -399,6 +416,10 @@ type Options struct {
 	// Shared address ranges: stores into them are scheduling points. nil = every instrumented store is one.
 	Shared   [][2]uintptr
 	MaxSteps int
+	// Rescan (optional) recomputes Shared while the threads are parked at a scheduling point; it is called after
+	// stores into shared memory (at most MaxRescans times per execution, default 48)
+	Rescan     func() [][2]uintptr
+	MaxRescans int
 }
 
 // Run executes the thread bodies once under the schedule prefix (then default choices) and returns the execution.
@@ -411,10 +432,11 @@ func Run(bodies []func() any, prefix []int, opt Options) *Exploration {
 	if opt.Shared == nil {
 		e.allShared = true
 	} else {
-		for _, r := range opt.Shared {
-			e.shared = append(e.shared, addrRange{r[0], r[1]})
-		}
-		sort.Slice(e.shared, func(i, j int) bool { return e.shared[i].lo < e.shared[j].lo })
+		e.setShared(opt.Shared)
+	}
+	e.rescan, e.maxRescans = opt.Rescan, opt.MaxRescans
+	if e.maxRescans == 0 {
+		e.maxRescans = 48
 	}
 	n := len(bodies)
 	for i := 0; i < n; i++ {
@@ -440,6 +462,12 @@ func Run(bodies []func() any, prefix []int, opt Options) *Exploration {
 	}
 	var running *thread
 	for {
+		// every thread is parked at a hook: memory is quiescent, objects published since the last look become shared
+		if e.rescan != nil && e.dirty && !e.allShared && e.Rescans < e.maxRescans {
+			e.setShared(e.rescan())
+			e.dirty = false
+			e.Rescans++
+		}
 		// enabled threads in canonical order
 		var en []*thread
 		for _, t := range e.threads {
